@@ -5822,8 +5822,9 @@ nice_agent_send_messages_nonblocking_internal (
             for (; j < n_bufs; j++) {
               local_bufs[local_message.n_buffers].buffer =
                   ((guint8 *) message->buffers[j].buffer) + offset_in_buffer;
+              /* Only the part of this buffer behind offset_in_buffer is left. */
               local_bufs[local_message.n_buffers].size =
-                  MIN (message->buffers[j].size, packet_len);
+                  MIN (message->buffers[j].size - offset_in_buffer, packet_len);
               packet_len -= local_bufs[local_message.n_buffers].size;
               offset += local_bufs[local_message.n_buffers++].size;
               offset_in_buffer = 0;
